@@ -149,7 +149,7 @@ func c19Batch(rep *vk.Report, b int, fam string, srv *c18Server) {
 		})
 		started = n
 	case "hedge":
-		vk.Parallel(n, 16, func(i int) { c09Scenario(scratch, b*100+i) })
+		vk.Parallel(n, 16, func(i int) { c09Scenario(scratch, b*100+i, "C09") })
 		started = n
 	case "async":
 		vk.Parallel(n, 16, func(i int) { c15Scenario(scratch, b*100+i) })
